@@ -106,9 +106,20 @@ def run(ctx):
                                             detail={"extra": sorted(x.decode() for x in got - want)[:4], "missing": sorted(x.decode() for x in want - got)[:4]})
                         ctx.sample({"argv": [q], "tz": tz, "rows": len(got)}, every=31)
             common.rm_tree(snap.root)
-        # relative literals under the real clock
-        for tz in zones:
-            now = int(time.time())
+        # relative literals under the real clock, then under wall clocks fixed (LD_PRELOAD shim, the model is told the same
+        # day) on 29 February, the last and the first day of a year, the last day of a 30-day month, 1 March after a
+        # short February: "today" is a quantified variable, not the day the check happens to run
+        fixed = [None]
+        if common.clock_shim() is not None:
+            fixed += [1835438400 + 3 * 3600, 1830297540 - 12 * 3600, 1830297600 + 7 * 3600, 1782820800 + 5 * 3600, 1772323200 + 15 * 3600,
+                      1709164800 + 13 * 3600]
+            if quick:
+                fixed = [None] + [fixed[1 + (ctx.seed + j) % 6] for j in range(2)]
+        else:
+            ctx.notes.append("clock shim could not be built: relative literals under the real clock only")
+        for tz, fake in [(tz, fake) for fake in fixed for tz in zones]:
+            now = int(time.time()) if fake is None else fake
+            ctx.count("relative_literal_days_fixed_clock" if fake is not None else "relative_literal_days_real_clock")
             off = fstree.tz_off(tz, now)
             if any(fstree.tz_off(tz, now + k * 86400) != off for k in (-5, -3, -1, 1, 3, 5)):
                 ctx.notes.append("relative literals skipped for %s: a daylight-saving transition is within five days" % tz)
@@ -120,11 +131,13 @@ def run(ctx):
             ents = []
             for k, delta in enumerate([-3 * 86400 - 1, -2 * 86400, -86400 - 1, -86400, -1, 0, 3600, 86399, 86400, 2 * 86400 + 5, 3 * 86400]):
                 ents.append({"path": "r%02d" % k, "kind": "f", "size": 1, "mode": 0o644, "mtime": day0 + delta, "mtime_ns": [0, 750000000][k % 2]})
-            snap = corr.Snap(scratch, ents, subdir="rel_" + tz.replace("<", "").replace(">", "").replace(":", ""), tz=tz)
+            snap = corr.Snap(scratch, ents, subdir="rel%s_" % (fake or "") + tz.replace("<", "").replace(">", "").replace(":", ""), tz=tz)
+            if fake is not None:
+                snap.fake_epoch = fake
             for lit, dd in [("today", 0), ("yesterday", -1), ("+1", 1), ("-2", -2), ("+2", 2), ("-1", -1)]:
                 for op in ["=", "!=", "<", ">=", ">"]:
                     q = "select name from . where modified %s %s into list" % (op, lit if lit[0] not in "+-" else "'%s'" % lit)
-                    ctx.case((tz, lit, op))
+                    ctx.case((tz, lit, op, fake))
                     m, impl = corr.run_case(ctx, snap, [q], fmt="list", ncols=1)
                     a = day0 + dd * 86400
                     b = a + 86399
@@ -132,7 +145,7 @@ def run(ctx):
                     want = {n["name"].encode() for n in snap.nodes if f(n["mtime"])}
                     got = set(impl["out"].split(b"\0")[:-1])
                     if impl["status"] != 0 or got != want:
-                        ctx.oracle_fail("relative date literal does not denote the whole local day", {"argv": [q], "tz": tz},
+                        ctx.oracle_fail("relative date literal does not denote the whole local day", {"argv": [q], "tz": tz, "fake_epoch": fake},
                                         detail={"status": impl["status"], "extra": sorted(x.decode() for x in got - want), "missing": sorted(x.decode() for x in want - got)})
             common.rm_tree(snap.root)
     finally:
